@@ -68,6 +68,8 @@ structure St where
   revokeWait : List (String × String × String) := []
   /-- CAs whose manifest/CRL were re-issued by a command that schedules no repository sync -/
   unsynced : List String := []
+  /-- key tokens whose revocation the parent acknowledged but did not carry out -/
+  ignoredRevokes : List String := []
   /-- do not report the recorded finding `ServerMatchesObjects/reissue-without-sync` -/
   tolerant : Bool := false
   /-- evaluate only the oracle predicates of this property ("" = all) -/
